@@ -238,6 +238,12 @@ impl Polynomial<Cmplx> {
         } else {
             let sqrt = (- 27. * a * a * dis).sqrt();
             let base = if d1 < Cmplx::zero() { d1 - sqrt } else { d1 + sqrt } / 2.;
+            if base == Cmplx::zero() { // d1 and the discriminant vanish: d0 is zero up to rounding, 3 equal roots
+                roots[0] = -b / ( 3. * a );
+                roots[1] = roots[0];
+                roots[2] = roots[0];
+                return roots;
+            }
             let k = base.pow( &Cmplx::new( 1. / 3.0, 0.0 ) );
             roots[0] = -(b + k + d0 / k) / ( 3. * a );
             let u = Cmplx::new( -0.5, (3.0_f64).sqrt() / 2.0 );
